@@ -8,7 +8,7 @@ PROPS = {
         models=[dict(module="AnchorSM3", anchor=True, about="SM3.tla reproduces the OpenSSL-made digests of corpus/sm3_openssl_bytes.ndjson"),
                 dict(module="MC_SM3", about="PadImpl = Pad, padding invariants for every length 0..1100 and giant lengths; machine = Hash for all splits")],
         stages=[dict(suite="sm3", nda="compare", trace="TraceSM3",
-                     required_classes={"both": ["sm3.hash/empty", "sm3.hash/r55", "sm3.hash/r56", "sm3.hash/r63", "sm3.hash/r0", "sm3.hash/multi", "sm3.block/hook-block", "sm3.final/giant-final"]})],
+                     required_classes={"both": ["sm3.hash/empty", "sm3.hash/r55", "sm3.hash/r56", "sm3.hash/r63", "sm3.hash/r0", "sm3.hash/multi", "sm3.block/hook-block", "sm3.final/giant-final", "sm3.hash/crafted-internal"]})],
         assumptions=["SM3.tla transcribes GB/T 32905 (anchored by the standard's examples and OpenSSL digests as ASSUMEs)",
                      "TLC, CommunityModules Json/IOUtils/Bitwise"],
     ),
@@ -21,7 +21,7 @@ PROPS = {
                 dict(module="MC_Feistel", tier="thorough", timeout=1200, about="same with 4 rounds: 16.8M states"),
                 dict(module="MC_Feistel", cfg="MC_Feistel_neg", expect="violation", about="negative: decryption with round keys in the same order must be refuted")],
         stages=[dict(suite="sm4blk", nda="compare", trace="TraceSM4", plan=dict(module="PlanSM4", cfg_quick="PlanSM4_q", cfg_thorough="PlanSM4_t"),
-                     required_classes={"both": ["sm4.enc/sm4.enc.badlen", "sm4.dec/sm4.dec.badlen", "sm4.enc/sm4.enc.fresh", "sm4.dec/sm4.dec.prev", "sm4.enc/sm4.enc.repeat", "sm4.dec/sm4.dec.fresh", "sm4.enc/sm4.enc.crafted", "sm4.dec/sm4.dec.crafted"]})],
+                     required_classes={"both": ["sm4.enc/sm4.enc.badlen", "sm4.dec/sm4.dec.badlen", "sm4.enc/sm4.enc.fresh", "sm4.dec/sm4.dec.prev", "sm4.enc/sm4.enc.repeat", "sm4.dec/sm4.dec.fresh", "sm4.enc/sm4.enc.crafted", "sm4.dec/sm4.dec.crafted", "sm4.enc/sm4.enc.craftedkey"]})],
         assumptions=["SM4.tla transcribes GB/T 32907 (S-box defined algebraically and ASSUMEd equal to the table; standard example as ASSUME)"],
     ),
     "C07": dict(
